@@ -40,12 +40,19 @@ Errors == {[id |-> "C11/err/unknown/" \o ToString(i) \o "/" \o ToString(p), text
           \cup {[id |-> "C11/err/escape/" \o ToString(i), text |-> "\"" \o t[i] \o "\""] : i \in 1..5, t \in {<<"\\q", "\\x4", "\\8", "\\'", "a\\">>}}
 
 \* positions across comments, multi-line tokens and mixed line ends
+\* long lines and long files: tokens that start beyond column 255 / 999, rows beyond 999, tokens of hundreds of characters
+RECURSIVE RepT(_, _)
+RepT(c, n) == IF n = 0 THEN "" ELSE c \o RepT(c, n - 1)
+ScaleTexts == <<"x := a" \o RepT(" + a", 70) \o "\ny", "print(\"" \o RepT("w ", 200) \o "\") + z\nq", RepT("i", 300) \o " 12345678901234567890 b", "/* " \o RepT("c ", 150) \o "*/ after := 1\nnext",
+                RepT(" ", 255) \o "a b", RepT(" ", 256) \o "a b", RepT("\t", 300) \o "a", RepT("a := 1\n", 105) \o "x := a" \o RepT(" + a", 64) \o "\nz", "a " \o RepT("/**/", 70) \o " b c",
+                "s := `" \o RepT("r", 300) \o "` + t", "a" \o RepT("\n", 300) \o "b c", RepT("x1 ", 90) \o "\"unterminated", RepT("(", 130) \o "a" \o RepT(")", 130) \o " b">>
+ScaleCases == {[id |-> "C11/scale/" \o ToString(i), text |-> ScaleTexts[i]] : i \in 1..Len(ScaleTexts)}
 PosTexts == <<"a /* c */ -1", "f(x) /* c */ -1", "a /* c */-1", "a // c\n-1", "1 /**/ -2", "s[0] /* */ -1", "\"s\" /* c */ -1", "true /* c */ -1", "a /* c */ - 1", "x = /* c */ -1", "a /* c */ /* d */ -1", "`x\r\ny` z", "x := `a\r\n\r\nb` + c\r\nd", "`\r\n`", "a `b\rc` d", "/* a\r\nb */ c", "a // c\r\nb `c\r\nd`\r\ne", "a /* c */ b", "a/* c */b /* d */ c", "/* x\ny */ a b", "a /* x\ny\nz */ b\nc", "`a\nb` c d", "x := `\n\n` y", "a // c\nb", "a\r\nb\r\n\tc", "\n\n  a", "a  \n", "\ta\t\tb", "a\n", "a", "", "\n", " ", "if a {\n\tb++\n}\n",
               "/* one */ a := 1 /* two */", "a /**/ b", "a /***/ b", "x /* * / */ y", "a //\nb", "a // c", "//", "/**/", "a //c\r\nb"," a-1", "a - 1", "a -1", "a- 1", "(a)-1", "f(-1)", "x = -1", "x[-1]", "a--1", "1-1", "\"s\"-1", "true-1", "nil-1",
               "a.b", "1.b", "a..b", "a:=b", "a: =b", "a<=b", "a< =b", "a&&b", "a||b", "a|b", "a!=b", "a! =b", "!a", "!!a", "a+++b", "a---b", "a+=-1", "a==-1", "a*-1">>
 Pos == {[id |-> "C11/pos/" \o ToString(i), text |-> PosTexts[i]] : i \in 1..Len(PosTexts)}
 
-All == T1 \cup T2 \cup T3 \cup Errors \cup Pos \cup StrPos
+All == T1 \cup T2 \cup T3 \cup Errors \cup Pos \cup StrPos \cup ScaleCases
 AllStr == StrI \cup StrR
 ASSUME ndJsonSerialize("fam.ndjson", SetToSeq(All))
 ASSUME ndJsonSerialize("famstr.ndjson", SetToSeq(AllStr))
